@@ -7,6 +7,9 @@
 // Memory clauses: ASan with every input ending flush with the end of an exact-size heap block
 // (asl Strings of length >= 19, malloc(len+1) C strings, malloc(len) byte buffers, ByteArrays >= 3).
 #include "common/runner.h"
+#include <mutex>
+#include <atomic>
+#include <thread>
 #include <asl/String.h>
 #include <asl/Array.h>
 #include <asl/Map.h>
@@ -463,6 +466,44 @@ static void mode_sha1(vf::Ctx& c)
 	if (c.want_sample()) c.sample(vf::fmt("message length %d (%d mod 64): zeros, 0xFF and %d random contents through the four SHA1::hash overloads", n, n % 64, reps));
 }
 
+// several threads hashing / encoding their own private buffers at the same time: every digest and text must be the one the
+// same call gives alone (beyond the stated quantifier, which has no schedules; a codec that keeps process-wide state fails here)
+static void mode_codecs_mt(vf::Ctx& c)
+{
+	int T = c.rng.range(2, 6), rounds = (int)c.opt->param("rounds", 40);
+	uint64_t seed = c.rng.next();
+	c.desc(vf::fmt("%d threads x %d rounds: SHA1::hash, encodeBase64/decodeBase64 and encodeHex/decodeHex of private buffers of 1 KiB - 256 KiB", T, rounds));
+	std::atomic<int> bad(0);
+	std::mutex mu;
+	std::string why;
+	std::vector<std::thread> th;
+	for (int t = 0; t < T; t++)
+		th.emplace_back([&, t]() {
+			vf::Rng r(vf::mix(seed, t));
+			for (int k = 0; k < rounds; k++) {
+				size_t n = (size_t)r.range(1024, k % 8 == 0 ? 262144 : 8192);
+				Bytes b = random_bytes(r, (int)n, false);
+				ByteArray in((const byte*)b.data(), (int)b.size());
+				Bytes want = ref_sha1(b);
+				SHA1::Hash h = SHA1::hash(in);
+				std::string what;
+				if (Bytes((const char*)(const byte*)h, 20) != want) what = "SHA1::hash";
+				String e64 = encodeBase64(in);
+				ByteArray d64 = decodeBase64(e64);
+				if (str(d64) != b) what = "decodeBase64(encodeBase64(x))";
+				String eh = encodeHex(in);
+				ByteArray dh = decodeHex(eh);
+				if (str(dh) != b) what = "decodeHex(encodeHex(x))";
+				if (what.size()) { bad++; std::lock_guard<std::mutex> l(mu); if (why.empty()) why = vf::fmt("thread %d round %d, %d bytes: %s differs from the single-threaded reference", t, k, (int)n, what.c_str()); }
+			}
+		});
+	for (auto& x : th) x.join();
+	if (bad) c.fail("codecs-mt.result-differs", vf::fmt("%d wrong; ", (int)bad) + why);
+	c.evals((uint64_t)T * rounds * 3);
+	c.distinct(seed);
+	if (c.want_sample()) c.sample(c.curdesc());
+}
+
 static void mode_sha1_big(vf::Ctx& c)
 {
 	int maxlen = (int)c.opt->param("maxlen", 1 << 20);
@@ -560,6 +601,17 @@ static void mode_b64x(vf::Ctx& c)
 		int ml = b64_one(c, s, true, &why);
 		if (ml < 0) c.fail("decodeBase64.negative-length", why);
 		ran++;
+		if (g % 5 == 0) {
+			// a result belongs to its caller: changing it must not change what a later call returns
+			ByteArray a = decodeBase64(exact(s));
+			int n0 = a.length();
+			if (n0 >= 0) {
+				a << (byte)0xAA << (byte)0xBB;
+				ByteArray b2 = decodeBase64(exact(s));
+				if (b2.length() != n0) c.fail("decodeBase64.result-shared-between-calls", vf::fmt("'%s': decoded to %d bytes, and to %d bytes after the first result had 2 bytes appended by its owner", vf::vis(s).c_str(), n0, b2.length()));
+				c.count("b64_result_independence_checks");
+			}
+		}
 		if (rec.on && g % every == 0) {
 			Bytes want;
 			if (ref_b64dec(s, want) == 2) rec.line("X " + hx(s) + " " + hx(str(decodeBase64(exact(s)))));
@@ -905,6 +957,13 @@ static void mode_query(vf::Ctx& c)
 			got += "'" + vf::vis(str(k)) + "'='" + vf::vis(str(v)) + "' ";
 		}
 		if (!ok) c.fail("query.roundtrip", "query string '" + vf::vis(str(qs)) + "' parsed back to {" + got + "}");
+		// the parsed dictionary works as a dictionary: every key is found by lookup, and it equals the original
+		for (auto& kv : model) {
+			const Dic<>& cb = back;
+			if (!cb.has(exact(kv.first))) { c.fail("query.lookup-misses-present-key", "key '" + vf::vis(kv.first) + "' of {" + got + "}"); break; }
+			if (str(cb[exact(kv.first)]) != kv.second) { c.fail("query.lookup-value", "key '" + vf::vis(kv.first) + "'"); break; }
+		}
+		if (ok && !(back == d)) c.fail("query.parsed-not-equal-to-original", "{" + got + "}");
 		// independent parse of the query string: split on '&', first '=', '+' -> space, percent-decode
 		{
 			std::map<Bytes, Bytes> ind;
@@ -945,6 +1004,7 @@ int main(int argc, char** argv)
 	R.add("bytes", mode_bytes, "idx = length: Base64 + hex both directions, whitespace-interleaved decode");
 	R.add("bytes_big", mode_bytes_big, "sampled lengths up to --param maxlen");
 	R.add("sha1", mode_sha1, "idx = message length");
+	R.add("codecs_mt", mode_codecs_mt, "threads hashing and encoding private buffers at once");
 	R.add("sha1_big", mode_sha1_big, "sampled message lengths up to --param maxlen");
 	R.add("b64x", mode_b64x, "blocks of the exhaustive enumeration over {A b + / = SP LF *} (pad-heavy shape excluded)");
 	R.add("b64_padonly", mode_b64_padonly, "the pad-heavy shape of the same enumeration: more trailing '=' than decoded bytes");
